@@ -9,7 +9,7 @@ from vlib.core import Infra
 LEVEL = "model_checking"
 
 HEADER = "package main\n\nimport frt\n\n"
-PARAMS = "(a:int) (b:int) (c:int) (d:int) (e:int) (x:int) (y:int) (f:int->int) (g:int->int) (h:int->int->int)"
+PARAMS = "(a:int) (b:int) (c:int) (d:int) (e:int) (x:int) (y:int) (f:int->int) (g:int->int) (h:int->int->int) (p:bool) (q:bool) (r:bool)"
 
 
 def r_operand(t):
@@ -23,6 +23,10 @@ def r_operand(t):
         return "not " + r_operand(t[1])
     if k == "paren":
         return "(" + r_chain(t[1], None) + ")"
+    if k == "lam":
+        return "fun %s -> %s" % (t[1], r_chain(t[2], None))
+    if k == "ifx":
+        return "if %s then %s else %s" % (r_chain(t[1], None), r_chain(t[2], None), r_chain(t[3], None))
     raise Infra("bad operand " + repr(t))
 
 
@@ -112,7 +116,8 @@ def run_rows(ctx, rows, tool="fc", params=None):
 
 def run(ctx):
     ctx.rule = ("every chain of 1..4 operators over the 12 non-pipe operators between atoms (22,620 chains, exhaustive), plus applied / "
-                "not-prefixed / parenthesised operand variants on chains of 1-2 operators, pipe combinations, and variants with a line "
+                "not-prefixed / parenthesised operand variants on chains of 1-2 operators, pipe combinations, one-line conditionals and lambdas as the last operand "
+                "(their else branch / body takes every operator that follows; 1,400 chains), and variants with a line "
                 "break before an operator, and chains of 1-2 operators over names and integer literals written without / with one-sided spaces around the operators (quick: before the last operator of every chain with >= 2 operators, sampled by seed for "
                 "4-operator chains; thorough: every break position); each is a Folang function transpiled by the real fc, the emitted "
                 "Go expression is parsed back and compared with the grouping of FoPrec.tla; distinct = distinct (chain, break); "
